@@ -65,6 +65,60 @@ def build_and_record(outdir, sanitize=True, only=None):
         return list(ex.map(one, [(allsrcs.index(s) + 1, s) for s in srcs]))
 
 
+def example_sources():
+    return sorted(glob.glob(os.path.join(REPO, "example", "*.c")))
+
+
+def example_input(src):
+    """stdin for an example program: every request form of every name its descriptor mentions, some junk, then AT#QUIT."""
+    text = open(src).read()
+    names = []
+    for m in re.finditer(r'\.name\s*=\s*"([^"]+)"', text):
+        if m.group(1) not in names:
+            names.append(m.group(1))
+    lines = []
+    for nm in names:
+        if nm == "#QUIT":
+            continue
+        for sfx in ["", "?", "=?", "=1", "=1,2,\"abc\"", "=\"hello\"", "=0x10,-3"]:
+            lines.append("AT" + nm + sfx + ("\r\n" if len(lines) % 3 == 0 else "\n"))
+    lines += ["AT\n", "\n", "ATZ\n", "AT+\n", "at#help\n", "AT#H\n", "AT#QUIT\n"]
+    return "".join(lines).encode()
+
+
+def build_and_record_examples(outdir, sanitize=True):
+    """The example programs (stdin driven, leave through AT#QUIT), recorded like the tests. sids 900000 + 1000 * i."""
+    os.makedirs(outdir, exist_ok=True)
+
+    def one(arg):
+        i, src = arg
+        name = "example_" + os.path.basename(src)[:-2]
+        exe = os.path.join(outdir, name)
+        trace = os.path.join(outdir, name + ".ndjson")
+        cmd = ["clang", "-O1", "-g", "-w", "-fno-omit-frame-pointer", "-DCAT_VERIF", "-I", os.path.join(REPO, "src"), src,
+               os.path.join(REPO, "src", "cat.c"), RECORDER, "-o", exe] + ["-Wl,--wrap=" + f for f in API]
+        if sanitize:
+            cmd[1:1] = ["-fsanitize=address,undefined", "-fno-sanitize-recover=all"]
+        p = subprocess.run(cmd, stdout=subprocess.PIPE, stderr=subprocess.STDOUT, text=True, timeout=600)
+        base = 900000 + 1000 * i
+        if p.returncode != 0:
+            return {"name": name, "build_ok": False, "log": p.stdout[-3000:], "trace": None, "rc": None, "base": base}
+        env = dict(os.environ, CATREC_OUT=trace, CATREC_SID=str(base), CATREC_TIMEOUT="60",
+                   ASAN_OPTIONS="detect_leaks=0:abort_on_error=0", UBSAN_OPTIONS="print_stacktrace=1:abort_on_error=1")
+        if os.path.exists(trace):
+            os.unlink(trace)
+        try:
+            r = subprocess.run([exe], input=example_input(src), stdout=subprocess.PIPE, stderr=subprocess.STDOUT, timeout=120, env=env, cwd=outdir)
+            rc, log = r.returncode, r.stdout[-2000:].decode("latin-1")
+        except subprocess.TimeoutExpired:
+            rc, log = -9, "timeout"
+        os.unlink(exe)
+        return {"name": name, "build_ok": True, "log": log, "trace": trace if os.path.exists(trace) else None, "rc": rc, "base": base}
+
+    with ThreadPoolExecutor(max_workers=NCPU) as ex:
+        return list(ex.map(one, list(enumerate(example_sources(), 1))))
+
+
 def validate(recs, outdir, nbatch=None, tlc_timeout=900):
     """Concatenate the recorded traces into batches and validate each with CatTrace. Returns list of result dicts."""
     have = [r for r in recs if r["trace"]]
@@ -127,6 +181,9 @@ RELEVANT = {
 }
 
 
+EXAMPLES_FOR = {"C13", "C19", "C10", "C01"}      # quick tier: the example programs are recorded for these properties
+
+
 def stage(pid, tier, work):
     """Record and validate the repository tests relevant to pid.  Returns {tests, results, recs}; never raises for a test that
     does not build or fails its own assertions (that is the test suite's business) - whatever it recorded is validated."""
@@ -135,6 +192,8 @@ def stage(pid, tier, work):
         return {"tests": [], "results": [], "recs": []}
     d = os.path.join(work, "repotests")
     recs = build_and_record(d, only=only)
+    if tier == "thorough" or pid in EXAMPLES_FOR:
+        recs += build_and_record_examples(d)
     res = validate(recs, d, nbatch=None if tier == "thorough" else 2)
     return {"tests": [r["name"] for r in recs if r["trace"]], "results": res, "recs": recs,
             "not_recorded": [r["name"] for r in recs if not r["trace"]]}
@@ -151,7 +210,7 @@ if __name__ == "__main__":
     import json
     import sys
     w = scratch_dir("repotests-")
-    recs = build_and_record(w)
+    recs = build_and_record(w) + build_and_record_examples(w)
     for r in recs:
         if not r["build_ok"] or r["rc"] != 0 or not r["trace"]:
             print("TEST", r["name"], "build_ok=%s rc=%s trace=%s" % (r["build_ok"], r["rc"], bool(r["trace"])), r["log"][-400:])
